@@ -768,7 +768,11 @@ func handleZRANK(params internal.HandlerFuncParams) ([]byte, error) {
 	member := params.Command[2]
 	withscores := false
 
-	if len(params.Command) == 4 && strings.EqualFold(params.Command[3], "withscores") {
+	if len(params.Command) == 4 {
+		// WITHSCORE is the documented option, WITHSCORES is accepted as well.
+		if !strings.EqualFold(params.Command[3], "withscore") && !strings.EqualFold(params.Command[3], "withscores") {
+			return nil, fmt.Errorf("invalid option %s", params.Command[3])
+		}
 		withscores = true
 	}
 
